@@ -404,7 +404,10 @@ def bounded(tier):
     evals = 0
     worst = 0.0
     distinct = set()
+    from verif.engine.oblig import soft_deadline
     for k in range(nm):
+      if soft_deadline(0.6, k, 4):
+        break
       xml, meta = modelgen.generate(rng, modelgen.Spec(all_free_roots=True, n_links=(2, 5), stiffness_p=0.0))
       sys = mjcf.loads(xml)
       for pipeline in ('spring', 'positional'):
